@@ -134,14 +134,94 @@ def body_cases(b: int, modes: int, methods: int) -> bool:
     return True
 
 
+
+# ---------------------------------------------------------------------------------------------------------------
+# the template the cases are built from: a container is labelled negative exactly when it holds an invalid value
+
+from schemathesis.generation.coverage import NegativeValue, PositiveValue
+
+TLOCS = ["query", "header", "cookie", "path"]
+TKINDS = {"query": ComponentKind.QUERY, "header": ComponentKind.HEADERS, "cookie": ComponentKind.COOKIES, "path": ComponentKind.PATH_PARAMETERS}
+
+
+def template_components(n: int, neg1: bool, neg2: bool, neg3: bool, loc1: int, loc2: int, loc3: int, body: int) -> bool:
+    """
+    pre: n == param(0) % 4 and all(0 <= l <= 3 for l in (loc1, loc2, loc3)) and 0 <= body <= 2
+    post: _
+    """
+    template = builder.Template({})
+    added = [(pick(TLOCS, l), neg) for l, neg in ((loc1, neg1), (loc2, neg2), (loc3, neg3))][:n]
+    for k, (loc, negative) in enumerate(added):
+        value = NegativeValue(0, description="Value smaller than minimum", location="/minimum") if negative else PositiveValue(5, description="Minimum value")
+        template.add_parameter(loc, "p%d" % k, value)
+    if body:
+        template.set_body(NegativeValue("x", description="Incorrect type", location="") if body == 2 else PositiveValue(1, description="Minimum value"), "application/json")
+    data = template.unmodified()
+    for loc, kind in TKINDS.items():
+        modes = [negative for l, negative in added if l == loc]
+        if not modes:
+            if kind in data.components:
+                return False
+            continue
+        # whatever the order of declaration: one invalid value makes the container invalid
+        if kind not in data.components or (data.components[kind].mode == GenerationMode.NEGATIVE) != any(modes):
+            return False
+    if body:
+        return data.components[ComponentKind.BODY].mode == (GenerationMode.NEGATIVE if body == 2 else GenerationMode.POSITIVE)
+    return ComponentKind.BODY not in data.components
+
+
+RAW2 = {"openapi": "3.0.2", "info": {"title": "t", "version": "1"}, "paths": {
+    "/typed": {"get": dict(_OK, parameters=[{"name": "limit", "in": "query", "required": True, "schema": {"type": "integer", "minimum": 1, "maximum": 9}},
+                                            {"name": "cursor", "in": "query", "required": True, "schema": {"type": "integer", "minimum": 5}}])},
+    # `cursor` declares bounds but no type: the boundary generator has no valid value for it, its first value is "smaller than minimum"
+    "/untyped": {"get": dict(_OK, parameters=[{"name": "limit", "in": "query", "required": True, "schema": {"type": "integer", "minimum": 1, "maximum": 9}},
+                                              {"name": "cursor", "in": "query", "required": True, "schema": {"minimum": 5}}])},
+}}
+SCHEMA2 = schemathesis.openapi.from_dict(RAW2)
+SCHEMA2.make_case = _make_case
+OPS2 = [SCHEMA2["/typed"]["GET"], SCHEMA2["/untyped"]["GET"]]
+for _op in OPS2:
+    list(_op.iter_parameters())
+
+
+def sibling_parameter_cases(untyped: int, modes: int) -> bool:
+    """
+    pre: 0 <= untyped <= 1 and 0 <= modes <= 2
+    post: _
+    """
+    cases = list(builder._iter_coverage_cases(pick(OPS2, untyped), pick(MODES, modes), None))
+    for case in cases:
+        if not _label_ok(case, {"get"}):
+            return False
+        query = case.query or {}
+        for name, lo, hi in (("limit", 1, 9), ("cursor", 5, None)):
+            value = query.get(name)
+            if isinstance(value, str) and value.lstrip("-").isdigit():
+                conforms = lo <= int(value) and (hi is None or int(value) <= hi)
+                # a case presented as valid holds no out-of-range number, also in the parameters it does not vary
+                if not conforms and case.meta.generation.mode == GenerationMode.POSITIVE:
+                    return False
+                info = case.meta.components.get(ComponentKind.QUERY)
+                if not conforms and info is not None and info.mode == GenerationMode.POSITIVE:
+                    return False
+    return True
+
+
 # warm lazily filled caches (operation maps, serializers) outside tracing: CrossHair needs identical re-executions
 query_cases(0, 2, 0)
 body_cases(0, 2, 0)
+sibling_parameter_cases(0, 2)
 
 _F = ["schemathesis.generation.hypothesis.builder._iter_coverage_cases", "schemathesis.generation.hypothesis.builder.Template", "schemathesis.generation.hypothesis.builder._stringify_value",
       "schemathesis.generation.coverage.cover_schema_iter", "schemathesis.generation.coverage._positive_number", "schemathesis.generation.coverage._positive_string"]
 _ST = ["Hypothesis draws (coverage.cached_draw) return a placeholder", "clock and case id pinned"]
 OBLIGATIONS = [
+    Ob(fn="template_components", clause="the template all coverage cases are built from labels a container (query / headers / cookies / path / body) negative exactly when it holds an invalid value, whatever the order in which the parameters are declared",
+       timeout=300, params=range(4), functions=["schemathesis.generation.hypothesis.builder.Template.add_parameter", "schemathesis.generation.hypothesis.builder.Template.set_body", "schemathesis.generation.hypothesis.builder.Template.unmodified"],
+       symbolic="0-3 parameters: location (4) and validity of each; body absent / valid / invalid", bounds="<= 3 parameters"),
+    Ob(fn="sibling_parameter_cases", clause="a case presented as valid (and a query labelled valid) holds no out-of-range number, also in the parameters the case does not vary",
+       timeout=300, functions=_F, symbolic="whether the second query parameter declares a type (so that a valid baseline value exists for it) or only bounds; mode subset", bounds="2 operations x 3 mode subsets", stubs=_ST),
     Ob(fn="query_cases", clause="the case as a whole is labelled negative exactly when one of its parts is invalid, a required parameter was removed, a parameter was duplicated or an undocumented method is used; boundary numbers in the query carry the right part label",
        timeout={"quick": 400, "thorough": 900}, params=None, functions=_F, symbolic="which of 7 (minimum, maximum) pairs incl. 0 and equal bounds, mode subset (3), configured unexpected methods (5 sets incl. ones overlapping documented methods)",
        bounds="7 bound pairs (the numeric kernels are decided for all ints in C03_values); one operation with a required integer query parameter and an optional string header", stubs=_ST, path_timeout=60),
